@@ -22,29 +22,28 @@ def ierr {α} (site : String) : R α := .error (.internal site)
 
 def Ctx.rule? (c : Ctx) (name : String) : Option AttrRule := c.rules.find? (·.name == name)
 
-/-- `self._attribute_rule_sets.get(name)` followed by an attribute access: an
-unknown name is an `AttributeError` on `None`. -/
-def Ctx.rule (c : Ctx) (name : String) : R AttrRule :=
-  match c.rule? name with
-  | some r => pure r
-  | none => ierr "AttributePolicy: unknown attribute name"
-
 def Ctx.isSupported (c : Ctx) (ver : Nat) (name : String) : Bool :=
   match c.rule? name with
   | some r => decide (r.versionAdded ≤ ver)
   | none => false
 
-def Ctx.isDeprecated (c : Ctx) (ver : Nat) (name : String) : R Bool := do
-  let r ← c.rule name
-  match r.versionDeprecated with
-  | some d => pure (decide (d ≤ ver))
+/-- the rule queries answer `False` for a name the table does not know -/
+def Ctx.isDeprecated (c : Ctx) (ver : Nat) (name : String) : R Bool :=
+  match c.rule? name with
+  | some r =>
+    match r.versionDeprecated with
+    | some d => pure (decide (d ≤ ver))
+    | none => pure false
   | none => pure false
 
-def Ctx.isMultivalued (c : Ctx) (name : String) : R Bool := do pure (← c.rule name).multivalued
-def Ctx.isModifiable (c : Ctx) (name : String) : R Bool := do pure (← c.rule name).modifiableByClient
-def Ctx.isDeletable (c : Ctx) (name : String) : R Bool := do pure (← c.rule name).deletableByClient
-def Ctx.isApplicable (c : Ctx) (name : String) (otype : Nat) : R Bool := do
-  pure ((← c.rule name).appliesTo.contains otype)
+def Ctx.isMultivalued (c : Ctx) (name : String) : R Bool :=
+  pure (match c.rule? name with | some r => r.multivalued | none => false)
+def Ctx.isModifiable (c : Ctx) (name : String) : R Bool :=
+  pure (match c.rule? name with | some r => r.modifiableByClient | none => false)
+def Ctx.isDeletable (c : Ctx) (name : String) : R Bool :=
+  pure (match c.rule? name with | some r => r.deletableByClient | none => false)
+def Ctx.isApplicable (c : Ctx) (name : String) (otype : Nat) : R Bool :=
+  pure (match c.rule? name with | some r => r.appliesTo.contains otype | none => false)
 
 /-! ### `_process_template_attribute` -/
 
@@ -104,32 +103,37 @@ inductive Got where
   | multi (vs : List AVal)
   deriving Repr, DecidableEq, Inhabited
 
+/-- the `elif attr_name == …` chain, as a table: attribute name ↦ getter -/
+def getters : List (String × (Obj → R (Option Got))) :=
+  [("Unique Identifier", fun o => pure (some (.single (.text (toString o.uid))))),
+   ("Name", fun o => pure (some (.multi (o.names.map (fun n => .name n 1))))),
+   ("Object Type", fun o => pure (some (.single (.enum o.otype)))),
+   ("Cryptographic Algorithm", fun o =>
+      if o.isKey then pure (o.alg.map (fun a => .single (.enum a))) else ierr "no attribute cryptographic_algorithm"),
+   ("Cryptographic Length", fun o =>
+      if o.isKey then pure (o.len.map (fun a => .single (.int a))) else ierr "no attribute cryptographic_length"),
+   ("Certificate Type", fun o =>
+      if o.otype == OT.certificate then pure (o.subtype.map (fun a => .single (.enum a)))
+      else ierr "no attribute certificate_type"),
+   ("Operation Policy Name", fun o => pure (some (.single (.text o.policy)))),
+   ("Cryptographic Usage Mask", fun o =>
+      match o.mask with
+      | some m => pure (some (.single (.int m)))
+      | none => ierr "no attribute cryptographic_usage_masks"),
+   ("State", fun o =>
+      match o.state with
+      | some s => pure (some (.single (.enum s)))
+      | none => ierr "no attribute state"),
+   ("Initial Date", fun o => pure (some (.single (.date o.initialDate)))),
+   ("Object Group", fun o => pure (some (.multi (o.groups.map .text)))),
+   ("Application Specific Information", fun o => pure (some (.multi (o.appInfo.map (fun p => .appInfo p.1 p.2))))),
+   ("Sensitive", fun o => pure (some (.single (.bool o.sensitive))))]
+
+/-- every other name (attributes the server does not store, custom attributes): `None` -/
 def getAttr (o : Obj) (name : String) : R (Option Got) :=
-  if name == "Unique Identifier" then pure (some (.single (.text (toString o.uid))))
-  else if name == "Name" then pure (some (.multi (o.names.map (fun n => .name n 1))))
-  else if name == "Object Type" then pure (some (.single (.enum o.otype)))
-  else if name == "Cryptographic Algorithm" then
-    if o.isKey then pure (o.alg.map (fun a => .single (.enum a))) else ierr "no attribute cryptographic_algorithm"
-  else if name == "Cryptographic Length" then
-    if o.isKey then pure (o.len.map (fun a => .single (.int a))) else ierr "no attribute cryptographic_length"
-  else if name == "Certificate Type" then
-    if o.otype == OT.certificate then pure (o.subtype.map (fun a => .single (.enum a)))
-    else ierr "no attribute certificate_type"
-  else if name == "Operation Policy Name" then pure (some (.single (.text o.policy)))
-  else if name == "Cryptographic Usage Mask" then
-    match o.mask with
-    | some m => pure (some (.single (.int m)))
-    | none => ierr "no attribute cryptographic_usage_masks"
-  else if name == "State" then
-    match o.state with
-    | some s => pure (some (.single (.enum s)))
-    | none => ierr "no attribute state"
-  else if name == "Initial Date" then pure (some (.single (.date o.initialDate)))
-  else if name == "Object Group" then pure (some (.multi (o.groups.map .text)))
-  else if name == "Application Specific Information" then
-    pure (some (.multi (o.appInfo.map (fun p => .appInfo p.1 p.2))))
-  else if name == "Sensitive" then pure (some (.single (.bool o.sensitive)))
-  else pure none
+  match getters.lookup name with
+  | some f => f o
+  | none => pure none
 
 /-- `_get_attributes_from_managed_object(obj, names)`; `names = []` means all. -/
 def getAttrsStep (c : Ctx) (ver : Nat) (o : Obj) (name : String) : R (List TAttr) := do
@@ -171,7 +175,7 @@ def hasDup : List String → Bool
 single-valued attributes the server stores. -/
 def setSingle (o : Obj) (name : String) (v : AVal) : R Obj :=
   if name == "Cryptographic Algorithm" then
-    if !o.isKey then ierr "no attribute cryptographic_algorithm" else
+    if !o.isKey then kerr Rsn.invalidField s!"Cannot set {name} attribute on this object." else
     match v with
     | .enum a =>
       match o.alg with
@@ -179,7 +183,7 @@ def setSingle (o : Obj) (name : String) (v : AVal) : R Obj :=
       | none => pure { o with alg := some a }
     | _ => ierr "attribute value has no enum value"
   else if name == "Cryptographic Length" then
-    if !o.isKey then ierr "no attribute cryptographic_length" else
+    if !o.isKey then kerr Rsn.invalidField s!"Cannot set {name} attribute on this object." else
     match v with
     | .int a =>
       match o.len with
@@ -191,7 +195,7 @@ def setSingle (o : Obj) (name : String) (v : AVal) : R Obj :=
     | _ => ierr "attribute value has no int value"
   else if name == "Cryptographic Usage Mask" then
     match o.mask with
-    | none => ierr "no attribute cryptographic_usage_masks"
+    | none => kerr Rsn.invalidField s!"Cannot set {name} attribute on this object."
     | some e =>
       match v with
       | .int a =>
@@ -362,7 +366,13 @@ def delAttr (c : Ctx) (o : Obj) (name : String) (index : Option Int) (value : Op
   else if (← c.isMultivalued name) then
     if name == "Name" then
       match value with
-      | some _ => ierr "'Name' object has no attribute 'value'"      -- engine.py l.1001
+      | some (.name s _) => do
+        let l ← delGeneric o.names (some s) (s != "") index
+        pure { o with names := l }
+      | some (.text s) => do
+        let l ← delGeneric o.names (some s) (s != "") index
+        pure { o with names := l }
+      | some _ => ierr "attribute value is neither a Name nor a text string"
       | none => do
         let l ← delGeneric o.names none false index
         pure { o with names := l }
